@@ -53,6 +53,12 @@ pub fn replay(cases_path: &str, out_path: &str, voice: &str) {
         let form = vs(&c["form"]);
         let r = guarded(|| synth_text(&engine, &text, form));
         let want_ok = c["expect"]["kind"] == "ok";
+        if c["expect"]["kind"] == "any" {
+            return match r {
+                Err(p) => Some((format!("labels:panic:{}", p), format!("panic on label text {:?}: {}", text, p))),
+                _ => None,
+            };
+        }
         match r {
             Err(p) => Some((format!("labels:panic:{}", p), format!("panic on label text {:?}: {}", text, p))),
             Ok(Err(e)) => {
